@@ -309,6 +309,9 @@ class ParseContext:
         fn_or_cls,
         name=fn_or_cls_name,
         module=module,
+        # A re-registration must not make non-configurable parameters bindable.
+        allowlist=original.allowlist if original else None,
+        denylist=original.denylist if original else None,
         import_source=self._import_source(source, attr_names),
         avoid_class_mutation=True)
     if original is not None:  # We've re-registered something...
